@@ -17,6 +17,7 @@ from .. import workload as W
 from ..verdict import Result
 
 LEVEL = "exploration"
+AWKWARD_REGISTRATION_MIX = True
 RULE = ("every catalogued operation x sampled (quick) / up to 36 (thorough) coordinate signatures x both flavors x "
         "NumPy shapes x Awkward layouts/routes x mixed pairings, 8 well-conditioned float64 operand sets per batch; "
         "a cell is (operation, dim, signature, array variant), non-trivial when at least one element was compared with "
